@@ -296,31 +296,36 @@ def hyp_job(job):
     from hypothesis import strategies as st
     acc = Acc()
     table = [(v, sid) for v in VARIANTS for sid in settings_of(v)]
-    invs = {v: build(v, 0)[0] for v in VARIANTS}
 
-    @st.composite
-    def cases(draw):
-        variant, sid = draw(st.sampled_from(table))
-        setting = invs[variant]._settings[sid]
-        size = domain_size(setting)
-        if size:
-            k = draw(st.one_of(st.integers(0, size - 1), st.sampled_from((0, size - 1, size // 2, size // 2 - 1))))
-            value = nth_value(setting, k)
-        else:
-            vals = wide_values(setting, 40, draw(st.integers(0, 10 ** 6)))
-            value = draw(st.sampled_from(vals))
-        return variant, sid, value, draw(st.integers(0, 10 ** 6)), draw(st.booleans())
+    # data generation must not depend on the state of the library under test: only indices are drawn here,
+    # the value is derived from them inside the test body against a freshly built inverter
+    cases = st.tuples(st.integers(0, len(table) - 1), st.one_of(st.integers(0, 2 ** 32 - 1), st.sampled_from((0, 1, 2, 32767, 32768, 65534, 65535))),
+                      st.integers(0, 10 ** 6), st.booleans())
 
     def body(t):
-        variant, sid, value, salt, tcp = t
+        ti, k, salt, tcp = t
+        variant, sid = table[ti]
+        inv, _ = build(variant, 0)
+        setting = inv._settings.get(sid)
         sub = Acc()
+        if setting is None:
+            return [("C17|%s|setting-disappeared" % VARIANTS[variant]["family"], "setting %r is no longer offered by variant %s" % (sid, variant),
+                     {"variant": variant, "setting": sid})]
+        size = domain_size(setting)
+        if size:
+            value = nth_value(setting, k % size)
+        else:
+            vals = wide_values(setting, 40, salt)
+            if not vals:
+                return []
+            value = vals[k % len(vals)]
         check_write(sub, variant, sid, value, salt, tcp)
         acc.evals += sub.evals
         acc.nt |= sub.nt
-        acc.cls("hyp|" + rs.type_name(invs[variant]._settings[sid]))
-        return [(k, v["msg"], v["case"]) for k, v in sub.viol.items()] + [(k, sub.known_msg[k], {"variant": variant, "setting": sid}) for k in sub.known]
+        acc.cls("hyp|" + rs.type_name(setting))
+        return [(k_, v["msg"], v["case"]) for k_, v in sub.viol.items()] + [(k_, sub.known_msg[k_], {"variant": variant, "setting": sid}) for k_ in sub.known]
 
-    harness.hyp_search(acc, body, [cases()], seed=seed, max_examples=n, max_buckets=6)
+    harness.hyp_search(acc, body, [cases], seed=seed, max_examples=n, max_buckets=6)
     return acc
 
 
